@@ -60,9 +60,8 @@ OnLeaf(e) ==
 
 OnTrk(e) == Result([st EXCEPT !.trks = Append(@, e)], {})
 
-OnRet(e) ==
-  LET c == st.call
-      isAlloc == c.op \in {"an", "aa", "tn", "ta"}
+OnRetWith(c, e) ==
+  LET isAlloc == c.op \in {"an", "aa", "tn", "ta"}
       isTry == c.op \in {"tn", "ta", "tdn", "tda"}
       okA == OkAllocs(st.leafs)
       okD == OkDeallocs(st.leafs)
@@ -115,6 +114,15 @@ OnRet(e) ==
                                 "C09", "TrackerSeesEachSuccessOnce", <<c.op, Len(st.trks)>>)
                        \cup Chk(TrkAllocs(st.trks) = {}, "C09", "TrackerSeesEachSuccessOnce", <<"alloc callback during release">>))
 
+OnRet(e) == OnRetWith(st.call, e)
+\* object-creating helpers (allocate_unique, allocate_shared, unique_base_ptr): the shape of the request the
+\* helper has to make (count, sizeof, alignof) is reported with the result
+OnSret(e) ==
+  IF e.r = "unsupported" THEN Result([st EXCEPT !.call = NoCall, !.leafs = <<>>, !.trks = <<>>], {})
+  ELSE OnRetWith([st.call EXCEPT !.n = e.n, !.sz = e.sz, !.al = e.al],
+                 [id |-> e.id, r |-> e.r, h |-> e.h, b |-> e.b, off |-> e.off, len |-> e.n * e.sz, mis |-> e.mis,
+                  fn0 |-> -1, fn1 |-> -1, bad |-> 0])
+
 OnEnd(e) == Result(st, Chk(e.leaf_live = 0 /\ st.leafLive = {}, "C09", "EverythingReleasedToLeaves", <<e.leaf_live>>))
 
 Apply(e) ==
@@ -124,6 +132,7 @@ Apply(e) ==
     [] e.e = "leaf" -> OnLeaf(e)
     [] e.e = "trk" -> OnTrk(e)
     [] e.e = "ret" -> OnRet(e)
+    [] e.e = "sret" -> OnSret(e)
     [] e.e = "end" -> OnEnd(e)
     [] e.e \in {"ua", "uf", "ux"} -> Result(st, {})
     [] e.e = "h" -> Result(st, Chk(e.k \notin {"invptr", "overflow"}, "C16", "ValidReleaseNeverReported", <<e.k>>))
